@@ -55,10 +55,10 @@ func (s Sketch) String() string {
 }
 
 type tplEval struct {
-	w        *World
-	unknown  []string
-	depth    int
-	inProg   map[*types.Func]bool
+	w         *World
+	unknown   []string
+	depth     int
+	inProg    map[*types.Func]bool
 	paramBusy map[types.Object]bool
 	identBusy map[types.Object]bool
 }
@@ -75,28 +75,28 @@ func newFctx(p *packages.Package, fn *ast.FuncDecl) *fctx {
 
 // atom functions: leaves of the evaluation, with the lexical class of their result
 var atomFuncs = map[string]string{
-	modPath + "/analysis.LocalName":                 "IDENT",
-	"(*go/types.Var).Name":                          "IDENT",
-	"(*go/types.TypeName).Name":                     "IDENT",
-	"(*go/types.Const).Name":                        "IDENT",
-	"(*go/types.Package).Name":                      "IDENT",
-	"(*go/types.Basic).Name":                        "IDENT",
-	"(*go/types.object).Name":                       "IDENT",
-	"(go/types.Object).Name":                        "IDENT",
-	"(*go/types.Func).Name":                         "IDENT",
-	"go/types.TypeString":                           "TYPE",
-	"(*go/types.Named).String":                      "TYPE",
-	"(go/types.Type).String":                        "TYPE",
-	"(*go/types.TypeName).String":                   "COMMENT",
-	modPath + "/generator.SQLTableName":             "SQLID",
-	"(*" + modPath + "/analysis/sql.Table).TableName": "IDENT",
-	"(" + modPath + "/analysis/sql.Table).TableName":  "IDENT",
-	"(go/constant.Value).ExactString":               "CONST",
-	"strconv.Quote":                                 "QSTR",
-	"(reflect.StructTag).Get":                       "USER",
-	"(go/constant.Value).String":                    "CONST",
-	modPath + "/generator.Origin":                   "COMMENT",
-	modPath + "/generator.ReplaceEnums":             "USER",
+	modPath + "/analysis.LocalName":                         "IDENT",
+	"(*go/types.Var).Name":                                  "IDENT",
+	"(*go/types.TypeName).Name":                             "IDENT",
+	"(*go/types.Const).Name":                                "IDENT",
+	"(*go/types.Package).Name":                              "IDENT",
+	"(*go/types.Basic).Name":                                "IDENT",
+	"(*go/types.object).Name":                               "IDENT",
+	"(go/types.Object).Name":                                "IDENT",
+	"(*go/types.Func).Name":                                 "IDENT",
+	"go/types.TypeString":                                   "TYPE",
+	"(*go/types.Named).String":                              "TYPE",
+	"(go/types.Type).String":                                "TYPE",
+	"(*go/types.TypeName).String":                           "COMMENT",
+	modPath + "/generator.SQLTableName":                     "SQLID",
+	"(*" + modPath + "/analysis/sql.Table).TableName":       "IDENT",
+	"(" + modPath + "/analysis/sql.Table).TableName":        "IDENT",
+	"(go/constant.Value).ExactString":                       "CONST",
+	"strconv.Quote":                                         "QSTR",
+	"(reflect.StructTag).Get":                               "USER",
+	"(go/constant.Value).String":                            "CONST",
+	modPath + "/generator.Origin":                           "COMMENT",
+	modPath + "/generator.ReplaceEnums":                     "USER",
 	"(" + modPath + "/generator.TableNameReplacer).Replace": "USER",
 }
 
